@@ -280,11 +280,15 @@ namespace sbepp
 
 // `begin <= end` is checked explicitly because views of members located past
 // the end of a (truncated) buffer have `begin > end`, negative difference
-// converted to `std::size_t` would pass any check
-#define SBEPP_SIZE_CHECK(begin, end, offset, size)                      \
-    SBEPP_ASSERT(                                                       \
-        (begin) && ((begin) <= (end))                                   \
-        && (((offset) + (size)) <= static_cast<std::size_t>((end) - (begin))))
+// converted to `std::size_t` would pass any check. `offset` and `size` are
+// compared separately because their sum can overflow when `size` comes from the
+// buffer (e.g. 64-bit `<data>` length)
+#define SBEPP_SIZE_CHECK(begin, end, offset, size)                           \
+    SBEPP_ASSERT(                                                            \
+        (begin) && ((begin) <= (end))                                        \
+        && ((size) <= static_cast<std::size_t>((end) - (begin)))             \
+        && ((offset)                                                         \
+            <= (static_cast<std::size_t>((end) - (begin)) - (size))))
 
 //! @brief The main `sbepp` namespace
 namespace sbepp
@@ -3503,8 +3507,8 @@ public:
         SBEPP_SIZE_CHECK(
             (*this)(addressof_tag{}),
             (*this)(end_ptr_tag{}),
-            0,
-            sizeof(size_type) + count);
+            sizeof(size_type),
+            count);
         set_primitive<E>((*this)(addressof_tag{}), count);
     }
 
@@ -3626,8 +3630,8 @@ public:
         SBEPP_SIZE_CHECK(
             (*this)(detail::addressof_tag{}),
             (*this)(detail::end_ptr_tag{}),
-            0,
-            sizeof(size_type) + ilist.size());
+            sizeof(size_type),
+            ilist.size());
         assign(std::begin(ilist), std::end(ilist));
     }
 
@@ -3693,8 +3697,8 @@ private:
         SBEPP_SIZE_CHECK(
             (*this)(detail::addressof_tag{}),
             (*this)(detail::end_ptr_tag{}),
-            0,
-            sizeof(size_type) + size());
+            sizeof(size_type),
+            size());
         return data_unchecked();
     }
 
